@@ -79,6 +79,7 @@ struct RunResult {
     std::vector<std::pair<uint64_t, bool>> cases;  // (signature, non-trivial) of the distinct cases this run explored
     std::vector<std::string> log_lines;            // only when verbose
     bool crashed = false; std::string crash_info;  // filled in by the engine for dead workers
+    std::vector<std::string> sched;                // scheduling decisions taken (explicit-schedule tokens), when the run had a scheduler
 };
 
 struct RunEnv {
@@ -126,6 +127,8 @@ struct Scenario {
     virtual std::vector<Op> simplify_op(const Plan&, size_t) { return {}; }
     // Candidate simplifications of the configuration.
     virtual std::vector<std::map<std::string, int64_t>> simplify_cfg(const Plan&) { return {}; }
+    // env.step of the first op of a plan (explicit schedules name steps; the shrinker renumbers them when it removes ops).
+    virtual int step_offset() const { return 0; }
 };
 
 Scenario* find_scenario(const std::string& name);
